@@ -13,7 +13,19 @@ from pyvc.run import task
 
 SEEDS = ['simple_gcc.elf.mips', 'arm_reloc_unrelocated.o', 'compressed_32.o', 'lib_versioned64.so.1.elf', 'obj_stabs.elf',
          'note_after_gnu_property/main.elf', 'section_link_to_self.elf', 'trailing_null_dies.elf']
-RECORD_TYPES = ('SHT_DYNAMIC', 'SHT_NOTE', 'SHT_HASH', 'SHT_GNU_HASH', 'SHT_GNU_verdef', 'SHT_GNU_verneed', 'SHT_GNU_versym')
+RECORD_TYPES = ('SHT_DYNAMIC', 'SHT_NOTE', 'SHT_HASH', 'SHT_GNU_HASH', 'SHT_GNU_verdef', 'SHT_GNU_verneed', 'SHT_GNU_versym', 'SHT_RELR')
+SYNTHETIC = {}
+
+
+def _synthetic_seeds():
+    """seed images written by the independent writers for record kinds no file of the repository carries: a RELR section"""
+    if not SYNTHETIC:
+        import struct
+        from tasks._img import sections_image
+        words = [0x1000, 0x15, 0x7, 0x2000, 0x8000000000000001]
+        SYNTHETIC['synthetic: ELF64 image with an SHT_RELR section'] = sections_image(
+            64, True, [dict(name='.relr.dyn', type=19, data=b''.join(struct.pack('<Q', w) for w in words), entsize=8, align=8, flags=2)])[0]
+    return SYNTHETIC
 
 
 def record_regions(seed):
@@ -64,6 +76,9 @@ def battery(ef):
                 n += 1
         elif t in ('SHT_HASH', 'SHT_GNU_HASH'):
             sec.get_number_of_symbols()
+        elif t == 'SHT_RELR':
+            for _r in sec.iter_relocations():
+                n += 1
     for seg in ef.iter_segments():
         n += 1
         if seg['p_type'] == 'PT_DYNAMIC':
@@ -151,8 +166,9 @@ def open_fuzz(tier, seed):
     rng = random.Random(seed * 17 + 19)
     d = _seed_dir()
     obs = []
-    for name in SEEDS if tier != 'quick' else SEEDS[:4]:       # quick: the first four seeds (one of them carries version sections)
-        data = open(os.path.join(d, name), 'rb').read()
+    names = list(SEEDS if tier != 'quick' else SEEDS[:4]) + sorted(_synthetic_seeds())      # quick: the first four seeds (one of
+    for name in names:                                                                      # them carries version sections)
+        data = _synthetic_seeds()[name] if name in SYNTHETIC else open(os.path.join(d, name), 'rb').read()
         bad_open = bad_term = None
         cases = 0
         for what, mutated in faults(data, rng, tier):
